@@ -64,6 +64,7 @@ type Conn struct {
 	peerGone bool // actor vanished/closed: writes fail
 
 	closedLocal bool
+	dead        bool // belongs to a crashed server incarnation
 	closeSeen   bool
 	readerWait  int
 	writerWait  int
